@@ -1004,8 +1004,21 @@ func (fc *FnCtx) storedAsserts(x *ssa.Store, v Val) {
 			fc.anchorsDone = map[string]bool{}
 		}
 		fc.anchorsDone["stored:"+a.Anchor] = true
-		env := fc.pointEnv(fc.curBlock)
-		want := fc.evalExpr(a.C.E, env)
+		base := fc.pointEnv(fc.curBlock)
+		env := *base
+		inner := base.lookup
+		env.lookup = func(name string) (Val, bool) {
+			if name == "value" {
+				return v, true // the value being stored
+			}
+			return inner(name)
+		}
+		want := fc.evalExpr(a.C.E, &env)
+		if want.K == KBool && v.K != KBool {
+			// a predicate over `value` rather than the expected value itself
+			fc.oblige("stored", a.C.Label, want.S(), pos, &a.C)
+			continue
+		}
 		if len(want.C) != len(v.C) {
 			fc.fail("stored at %q: value shape mismatch", a.Anchor)
 		}
